@@ -411,6 +411,18 @@ func (e *Engine) enterLoop(fr *Frame, li *loopInfo, st *State) *State {
 			}
 		}
 		sort.Strings(keys)
+		// locations the function may assign anyway (its assigns clause, at entry)
+		root := fr
+		for root.parent != nil {
+			root = root.parent
+		}
+		allowed := map[string][]string{}
+		if root.contract != nil {
+			aenv := e.baseEnv(root, root.entry)
+			for _, a := range root.contract.Assigns {
+				e.allowedLocation(aenv, a, allowed)
+			}
+		}
 		for _, k := range keys {
 			lf := loopFrame{key: k, pre: e.heapTerm(li.pre, k, e.heapSorts[k]), top: li.pre.top}
 			for r := range ws.heap[k].refs {
@@ -425,6 +437,7 @@ func (e *Engine) enterLoop(fr *Frame, li *loopInfo, st *State) *State {
 					lf.stable = append(lf.stable, refTerms(v)...)
 				}
 			}
+			lf.stable = append(lf.stable, allowed[k]...)
 			sort.Strings(lf.stable)
 			li.frames = append(li.frames, lf)
 			e.ctx.Assume(implies(h.pc, e.frameFormula(lf, h.heap[k], "")))
@@ -443,6 +456,12 @@ func (e *Engine) enterLoop(fr *Frame, li *loopInfo, st *State) *State {
 		li.variant = append(li.variant, e.ctx.Define("variant", "Int", v))
 	}
 	li.head = h.clone()
+	if e.dry == 0 {
+		// vacuity guard: the loop head must be reachable under the invariants
+		if o := e.oblige(h, fr.label+fmt.Sprintf("cover/loop/%d", li.ordinal), "false", "", "loop head is reachable under its invariants", nil); o != nil {
+			o.Expect = "sat"
+		}
+	}
 	return h
 }
 
@@ -464,7 +483,19 @@ func (e *Engine) rangeLoopFacts(fr *Frame, li *loopInfo, h *State) {
 			}
 		}
 	}
-	if cell == nil || bound == nil {
+	if cell == nil {
+		// range over an integer: the header is the body block; it is entered only
+		// after "iter < n" succeeded, and iter starts at 0 and is only incremented
+		if ic, n := rangeIntLoop(fr, li); ic != nil && n != nil {
+			if v, ok := h.cells[ic]; ok {
+				if b, ok := fr.vals[n]; ok {
+					e.ctx.Assume(implies(h.pc, and(sx("<=", "0", v.T), sx("<", v.T, b.T))))
+				}
+			}
+		}
+		return
+	}
+	if bound == nil {
 		return
 	}
 	v, ok := h.cells[cell]
@@ -768,8 +799,22 @@ func (e *Engine) execBlock(fr *Frame, b *ssa.BasicBlock, st *State) []outEdge {
 }
 
 func (e *Engine) execPanic(fr *Frame, st *State, ins *ssa.Panic) {
-	// An explicit panic must be unreachable unless the contract allows it.
-	e.oblige(st, "safety/panic", "false", e.posOf(fr, ins.Pos()), "explicit panic is unreachable", nil)
+	// An explicit panic must be unreachable unless the contract allows it
+	// (panics-if: a documented panic under a condition on the entry state).
+	goal := "false"
+	top := fr
+	for top.parent != nil {
+		top = top.parent
+	}
+	if top.contract != nil && len(top.contract.PanicsIf) > 0 {
+		env := e.baseEnv(top, top.entry)
+		var cs []string
+		for _, c := range top.contract.PanicsIf {
+			cs = append(cs, e.evalBool(c.Expr, env))
+		}
+		goal = or(cs...)
+	}
+	e.oblige(st, "safety/panic", goal, e.posOf(fr, ins.Pos()), "explicit panic is unreachable (or allowed by panics-if)", nil)
 }
 
 func (e *Engine) execInstr(fr *Frame, st *State, ins ssa.Instruction) {
@@ -1433,4 +1478,44 @@ func appendOnly(fr *Frame, li *loopInfo, c *Cell) bool {
 		}
 	}
 	return true
+}
+
+// rangeIntLoop recognises the lowering of "for i := range n": it returns the
+// hidden counter cell and the bound value.
+func rangeIntLoop(fr *Frame, li *loopInfo) (*Cell, ssa.Value) {
+	var iter *ssa.Alloc
+	for _, ins := range li.header.Instrs {
+		if u, ok := ins.(*ssa.UnOp); ok {
+			if a, ok := u.X.(*ssa.Alloc); ok && a.Comment == "rangeint.iter" {
+				iter = a
+				break
+			}
+		}
+	}
+	if iter == nil {
+		return nil, nil
+	}
+	var bound ssa.Value
+	for _, p := range li.header.Preds {
+		if len(p.Instrs) == 0 {
+			return nil, nil
+		}
+		iff, ok := p.Instrs[len(p.Instrs)-1].(*ssa.If)
+		if !ok || p.Succs[0] != li.header {
+			return nil, nil
+		}
+		cmp, ok := iff.Cond.(*ssa.BinOp)
+		if !ok || cmp.Op != token.LSS {
+			return nil, nil
+		}
+		if bound != nil && bound != cmp.Y {
+			return nil, nil
+		}
+		bound = cmp.Y
+	}
+	c := fr.cells[iter]
+	if c == nil {
+		return nil, nil
+	}
+	return c, bound
 }
